@@ -35,7 +35,7 @@ def build_template(tpl, variant):
     else:
         start = "{sat}_" + grp("", date, "-") + ("T" + grp("", tfs, ":") if tfs else "")
     if tpl["ek"] == "full":
-        end = "-" + grp("end_", date + tfs, "" if variant in (0, 1) else ".")
+        end = "-" + grp("end_", DATE[tpl.get("edate", tpl["date"])] + tfs, "" if variant in (0, 1) else ".")
     elif tpl["ek"] == "partial":
         end = "-" + grp("end_", [f for f in TF if f in tpl["ep"]], "" if variant in (0, 1) else ".")
     else:
@@ -107,6 +107,25 @@ def replay_case(col, item):
                 kind = "start" if got[0] != exp[0] else "end-" + tpl["ek"] if got[1] != exp[1] else "attr"
                 col.violation("get_info-wrong-" + kind, {"abstract": abstract, "concrete": dict(conc, cov=cov),
                                                          "expected": [str(x) for x in exp], "observed": [str(x) for x in got]})
+        # ... and on ONE object whose time_coverage is re-assigned between the calls (hour -> None -> day): the
+        # information about the same name has to follow the coverage in force
+        if tpl["ek"] == "none":
+            try:
+                fseq = FileSet(os.path.join(base, template), time_coverage="1 hour")
+                seq = []
+                for cov, tc in (("hour", None), ("none", None), ("day", None)):
+                    if cov != "hour":
+                        fseq.time_coverage = {"none": None, "day": dt.timedelta(days=1)}[cov]
+                    seq.append((cov, fseq.get_info(name).times[1], to_dt(case["cov"][cov])))
+                col.count(1)
+                bad = [(c, str(g), str(w)) for c, g, w in seq if g != w]
+                if bad:
+                    col.violation("get_info-stale-after-time_coverage-assignment",
+                                  {"abstract": abstract, "concrete": dict(conc, sequence="1 hour, None, 1 day on one object"),
+                                   "expected": [str(w) for _, _, w in seq], "observed": [str(g) for _, g, _ in seq]})
+            except Exception as ex:
+                col.violation("get_info-raises-" + type(ex).__name__ + "-after-time_coverage-assignment",
+                              {"abstract": abstract, "concrete": conc, "observed": repr(ex)})
         if "doy" in fields and fields["doy"] > 59 or "year2" in fields or (tpl["ek"] == "partial" and end_abs[:3] != case["start"][:3]):
             nontrivial = True
     # info_via='both': the handler's information overrides the file name's, None does not
